@@ -1,8 +1,9 @@
 (* VerifyScript and the witness-v0 part of VerifyWitnessProgram / ExecuteWitnessScript, on top of the
    interpreter of model/Script.v.  Transcribed from src/script/interpreter.cpp and src/script/script.cpp
    (IsPushOnly, IsPayToScriptHash, IsWitnessProgram, IsPayToAnchor).
-   Not modelled: a taproot spend (witness v1, 32-byte program, not P2SH) under SCRIPT_VERIFY_TAPROOT; for that
-   case verify_script returns None.  Executable definitions only; proofs are in proofs/ScriptFlagsLemmas.v. *)
+   Taproot (witness v1, 32-byte program): annex, key path / script path, control-block size rule, leaf version,
+   validation weight and the tapscript OP_SUCCESSx pre-scan are modelled; the commitment check (tapleaf hash, Merkle
+   path, key tweak) is the Section oracle tap_commit.  Executable definitions only; proofs are in proofs/ScriptFlagsLemmas.v. *)
 From BV Require Import lib.Ints gen.Params_gen model.Script.
 Local Open Scope Z_scope.
 
@@ -43,33 +44,128 @@ Definition witness_program (s : bytes) : option (Z * bytes) :=
 Definition is_pay_to_anchor (version : Z) (program : bytes) : bool :=
   (version =? 1) && match program with [78; 115] => true | _ => false end.
 
+(* bool IsOpSuccess(const opcodetype& opcode)   (script.cpp)
+   { return opcode == 80 || opcode == 98 || (opcode >= 126 && opcode <= 129) || (opcode >= 131 && opcode <= 134) ||
+            (opcode >= 137 && opcode <= 138) || (opcode >= 141 && opcode <= 142) || (opcode >= 149 && opcode <= 153) ||
+            (opcode >= 187 && opcode <= 254); } *)
+Definition is_op_success (c : Z) : bool :=
+  (c =? 80) || (c =? 98) || ((126 <=? c) && (c <=? 129)) || ((131 <=? c) && (c <=? 134)) ||
+  ((137 <=? c) && (c <=? 138)) || ((141 <=? c) && (c <=? 142)) || ((149 <=? c) && (c <=? 153)) ||
+  ((187 <=? c) && (c <=? 254)).
+
+(* size of the compact-size prefix / of the serialization of a vector of byte vectors (GetSerializeSize(witness.stack)) *)
+Definition compact_size_len (n : Z) : Z :=
+  if n <? 253 then 1 else if n <=? 65535 then 3 else if n <=? 4294967295 then 5 else 9.
+Fixpoint ser_elems_size (l : list bytes) : Z :=
+  match l with [] => 0 | e :: r => compact_size_len (lenz e) + lenz e + ser_elems_size r end.
+Definition witness_serialize_size (l : list bytes) : Z := compact_size_len (lenz l) + ser_elems_size l.
+
 Section Verify.
 Variable sha256 : bytes -> bytes.
 Variable ripemd160 : bytes -> bytes.
 Variable sha1 : bytes -> bytes.
 Variable fl : Z.
 Variable ck : checker.
+(* VerifyTaprootCommitment(control, program, ComputeTapleafHash(control[0] & TAPROOT_LEAF_MASK, script)):
+   the tapleaf hash, the Merkle path of the control block and the x-only key tweak check, as an oracle
+   tap_commit control program script *)
+Variable tap_commit : bytes -> bytes -> bytes -> bool.
 
 Definition eval (sv : sigversion) (script : bytes) (stack : list bytes) : result (list bytes) :=
   eval_script sha256 ripemd160 sha1 fl ck sv script stack.
 
-(* static bool ExecuteWitnessScript(stack_span, exec_script, flags, sigversion, checker, execdata, serror)   [WITNESS_V0 only]
+(* the tapscript pre-scan of ExecuteWitnessScript over the instruction stream (ops, tail_ok) = parse_script:
+     while (pc < exec_script.end()) { opcodetype opcode;
+       if (!exec_script.GetOp(pc, opcode)) return set_error(serror, SCRIPT_ERR_BAD_OPCODE);   // not reached if an OP_SUCCESSx came first
+       if (IsOpSuccess(opcode)) { if (flags & SCRIPT_VERIFY_DISCOURAGE_OP_SUCCESS) return set_error(serror, SCRIPT_ERR_DISCOURAGE_OP_SUCCESS);
+                                  return set_success(serror); } }
+   Some r = the function returns r here; None = the scan ends without a verdict *)
+Fixpoint op_success_scan (ops : list pop) (tail_ok : bool) : option (result unit) :=
+  match ops with
+  | [] => if tail_ok then None else Some (Err SE_BAD_OPCODE)
+  | p :: r =>
+    if is_op_success (p_code p)
+    then Some (if has fl SCR_FLAG_DISCOURAGE_OP_SUCCESS then Err SE_DISCOURAGE_OP_SUCCESS else Ok tt)
+    else op_success_scan r tail_ok
+  end.
+
+(* static bool ExecuteWitnessScript(stack_span, exec_script, flags, sigversion, checker, execdata, serror)
    { std::vector<valtype> stack{stack_span.begin(), stack_span.end()};
+     if (sigversion == SigVersion::TAPSCRIPT) {
+         // OP_SUCCESSx processing overrides everything, including stack element size limits
+         <pre-scan>
+         // Tapscript enforces initial stack size limits (altstack is empty here)
+         if (stack.size() > MAX_STACK_SIZE) return set_error(serror, SCRIPT_ERR_STACK_SIZE); }
+     // Disallow stack item size > MAX_SCRIPT_ELEMENT_SIZE in witness stack
      for (const valtype& elem : stack) if (elem.size() > MAX_SCRIPT_ELEMENT_SIZE) return set_error(serror, SCRIPT_ERR_PUSH_SIZE);
      if (!EvalScript(stack, exec_script, flags, checker, sigversion, execdata, serror)) return false;
      if (stack.size() != 1) return set_error(serror, SCRIPT_ERR_CLEANSTACK);
      if (!CastToBool(stack.back())) return set_error(serror, SCRIPT_ERR_EVAL_FALSE);
-     return true; } *)
-Definition execute_witness_script_v0 (stack : list bytes) (exec_script : bytes) : result unit :=
-  guard (existsb (fun e => lenz e >? MAX_SCRIPT_ELEMENT_SIZE) stack) SE_PUSH_SIZE
-  (do s <- eval SV_WITNESS_V0 exec_script stack;
-   match s with
-   | [top] => if cast_to_bool top then Ok tt else Err SE_EVAL_FALSE
-   | _ => Err SE_CLEANSTACK
-   end).
+     return true; }
+   weight = execdata.m_validation_weight_left on entry (tapscript). *)
+Definition execute_witness_script (sv : sigversion) (stack : list bytes) (exec_script : bytes) (weight : Z) : result unit :=
+  match (if is_tapscript sv then (let '(ops, ok) := parse_script exec_script in op_success_scan ops ok) else None) with
+  | Some r => r
+  | None =>
+    guard (is_tapscript sv && (lenz stack >? MAX_STACK_SIZE)) SE_STACK_SIZE
+    (guard (existsb (fun e => lenz e >? MAX_SCRIPT_ELEMENT_SIZE) stack) SE_PUSH_SIZE
+     (do st <- eval_script_state sha256 ripemd160 sha1 fl ck sv exec_script stack weight;
+      match st_stack st with
+      | [top] => if cast_to_bool top then Ok tt else Err SE_EVAL_FALSE
+      | _ => Err SE_CLEANSTACK
+      end))
+  end.
+
+(* the taproot branch of VerifyWitnessProgram (witness v1, 32-byte program, not P2SH), wstack = witness.stack top first:
+     if (!(flags & SCRIPT_VERIFY_TAPROOT)) return set_success(serror);
+     if (stack.size() == 0) return set_error(serror, SCRIPT_ERR_WITNESS_PROGRAM_WITNESS_EMPTY);
+     if (stack.size() >= 2 && !stack.back().empty() && stack.back()[0] == ANNEX_TAG) { drop annex; m_annex_present = true }
+     if (stack.size() == 1) { // key path
+         if (!checker.CheckSchnorrSignature(stack.front(), program, SigVersion::TAPROOT, execdata, serror)) return false;
+         return set_success(serror);
+     } else { // script path
+         control = SpanPopBack(stack); script = SpanPopBack(stack);
+         if (control.size() < TAPROOT_CONTROL_BASE_SIZE || control.size() > TAPROOT_CONTROL_MAX_SIZE ||
+             ((control.size() - TAPROOT_CONTROL_BASE_SIZE) % TAPROOT_CONTROL_NODE_SIZE) != 0) return set_error(serror, SCRIPT_ERR_TAPROOT_WRONG_CONTROL_SIZE);
+         execdata.m_tapleaf_hash = ComputeTapleafHash(control[0] & TAPROOT_LEAF_MASK, script);
+         if (!VerifyTaprootCommitment(control, program, execdata.m_tapleaf_hash)) return set_error(serror, SCRIPT_ERR_WITNESS_PROGRAM_MISMATCH);
+         if ((control[0] & TAPROOT_LEAF_MASK) == TAPROOT_LEAF_TAPSCRIPT) {
+             execdata.m_validation_weight_left = ::GetSerializeSize(witness.stack) + VALIDATION_WEIGHT_OFFSET;
+             return ExecuteWitnessScript(stack, exec_script, flags, SigVersion::TAPSCRIPT, checker, execdata, serror); }
+         if (flags & SCRIPT_VERIFY_DISCOURAGE_UPGRADABLE_TAPROOT_VERSION) return set_error(serror, SCRIPT_ERR_DISCOURAGE_UPGRADABLE_TAPROOT_VERSION);
+         return set_success(serror); } *)
+Definition is_annex (e : bytes) : bool := match e with b :: _ => b =? SCR_ANNEX_TAG | [] => false end.
+Definition drop_annex (wstack : list bytes) : list bytes :=
+  match wstack with
+  | last :: ((_ :: _) as rest) => if is_annex last then rest else wstack
+  | _ => wstack
+  end.
+Definition control_size_ok (n : Z) : bool :=
+  negb ((n <? 33) || (n >? 33 + 32 * 128) || negb ((n - 33) mod 32 =? 0)).
+Definition leaf_is_tapscript (control : bytes) : bool :=
+  match control with c0 :: _ => Z.land c0 254 =? 192 | [] => false end.
+Definition verify_taproot (wstack : list bytes) (program : bytes) : result unit :=
+  if negb (has fl SCR_FLAG_TAPROOT) then Ok tt else
+  match wstack with
+  | [] => Err SE_WITNESS_PROGRAM_WITNESS_EMPTY
+  | _ =>
+    match drop_annex wstack with
+    | [] => Err SE_UNKNOWN_ERROR                                   (* not reachable: drop_annex keeps at least one element *)
+    | [sig] =>
+      match chk_schnorr_keypath ck sig program with None => Ok tt | Some e => Err e end
+    | control :: script :: args =>
+      if negb (control_size_ok (lenz control)) then Err SE_TAPROOT_WRONG_CONTROL_SIZE
+      else if negb (tap_commit control program script) then Err SE_WITNESS_PROGRAM_MISMATCH
+      else if leaf_is_tapscript control then
+        execute_witness_script SV_TAPSCRIPT args script (witness_serialize_size wstack + SCR_VALIDATION_WEIGHT_OFFSET)
+      else if has fl SCR_FLAG_DISCOURAGE_UPGRADABLE_TAPROOT_VERSION then Err SE_DISCOURAGE_UPGRADABLE_TAPROOT_VERSION
+      else Ok tt
+    end
+  end.
 
 (* static bool VerifyWitnessProgram(witness, witversion, program, flags, checker, serror, is_p2sh)
-   wstack is witness.stack with the LAST element first (top first).  None = taproot spend (not modelled). *)
+   wstack is witness.stack with the LAST element first (top first).  (The result is always Some; the option is kept
+   so that statements written for the earlier, partial model keep their shape.) *)
 Definition verify_witness_program (wstack : list bytes) (witversion : Z) (program : bytes) (is_p2sh : bool) : option (result unit) :=
   if witversion =? 0 then
     if lenz program =? SCR_WITNESS_V0_SCRIPTHASH_SIZE then
@@ -78,16 +174,16 @@ Definition verify_witness_program (wstack : list bytes) (witversion : Z) (progra
       | [] => Some (Err SE_WITNESS_PROGRAM_WITNESS_EMPTY)
       | script_bytes :: rest =>
         if negb (bytes_eqb (sha256 script_bytes) program) then Some (Err SE_WITNESS_PROGRAM_MISMATCH)
-        else Some (execute_witness_script_v0 rest script_bytes)
+        else Some (execute_witness_script SV_WITNESS_V0 rest script_bytes 0)
       end
     else if lenz program =? SCR_WITNESS_V0_KEYHASH_SIZE then
       (* BIP141 P2WPKH: exec_script << OP_DUP << OP_HASH160 << program << OP_EQUALVERIFY << OP_CHECKSIG *)
       if negb (lenz wstack =? 2) then Some (Err SE_WITNESS_PROGRAM_MISMATCH)
-      else Some (execute_witness_script_v0 wstack ([118; 169] ++ push_encoding program ++ [136; 172]))
+      else Some (execute_witness_script SV_WITNESS_V0 wstack ([118; 169] ++ push_encoding program ++ [136; 172]) 0)
     else Some (Err SE_WITNESS_PROGRAM_WRONG_LENGTH)
   else if (witversion =? 1) && (lenz program =? SCR_WITNESS_V1_TAPROOT_SIZE) && negb is_p2sh then
     (* BIP341 Taproot *)
-    if negb (has fl SCR_FLAG_TAPROOT) then Some (Ok tt) else None
+    Some (verify_taproot wstack program)
   else if negb is_p2sh && is_pay_to_anchor witversion program then Some (Ok tt)
   else if has fl SCR_FLAG_DISCOURAGE_UPGRADABLE_WITNESS_PROGRAM then Some (Err SE_DISCOURAGE_UPGRADABLE_WITNESS_PROGRAM)
   else Some (Ok tt).
